@@ -33,15 +33,15 @@ type sessShadow struct {
 }
 
 type ctlGen struct {
-	e     *ctlEnv
-	r     *rng
-	c     *ctx
-	seq   map[int]uint32
-	sess  []*sessShadow
-	outst []outSRR
-	sent  []*event // requests sent so far (for duplicates / key collisions / rx expiry)
-	prof  map[string]int
-	peers []int
+	e      *ctlEnv
+	r      *rng
+	c      *ctx
+	seq    map[int]uint32
+	sess   []*sessShadow
+	outst  []outSRR
+	sent   []*event // requests sent so far (for duplicates / key collisions / rx expiry)
+	prof   map[string]int
+	peers  []int
 	forced *event // the next event, decided by the previous one
 }
 
